@@ -168,7 +168,7 @@ def gen_trainer(rng, cls):
     return {"cls": cls, "red": red, "lr_pos": lr_a, "lr_neg": lr_b, "tc_pos": tc_a, "tc_neg": tc_b}
 
 
-def gen_steps(rng, case, g, T):
+def gen_steps(rng, case, g, T, persample=None):
     B = case["B"]
     dt = case["conn"]["dt"]
     cls = case["trainer"]["cls"]
@@ -179,7 +179,8 @@ def gen_steps(rng, case, g, T):
     ppre, ppost = rng.choice([0.1, 0.3, 0.5, 0.7]), rng.choice([0.1, 0.3, 0.5, 0.7])
     quiet_pre, quiet_post = rng.choice([0, 0, 1, 3]), rng.choice([0, 0, 1, 3])   # silent prefixes: "not spiked yet"
     cur = None
-    persample = cls in THREE and rng.random() < 0.5
+    draw = rng.random() < 0.5
+    persample = cls in THREE and (draw if persample is None else persample)
     steps = []
     for k in range(T):
         st = {"pre": [int(k >= quiet_pre and rng.random() < ppre) for _ in range(B * g["nin"])],
@@ -208,6 +209,80 @@ def gen_case(rng, cls=None, conv_ok=True):
     g = geometry(case)
     case["steps"] = gen_steps(rng, case, g, rng.randint(1, 14))
     return case
+
+
+DED_KEYS = ["lr_pos", "lr_neg", "tc_pos", "tc_neg", "red"]
+
+
+def flip_signs(rng, t, ref):
+    """make the learning-rate signs of t differ from those of ref (the regressions that only show for overrides are sign
+    routings taken from the wrong hyperparameters)"""
+    for k in [k for k in t if k.startswith("lr_")]:
+        if rng.random() < 0.7:
+            mag = abs(t[k]) if t[k] != 0 else 0.5
+            t[k] = -mag if ref[k] >= 0 else mag
+
+
+def gen_group(rng, gid, cls=None, persample=None):
+    """ONE trainer object driving 2-3 cells, each registered with keyword overrides of the hyperparameters
+    (register_cell(name, cell, **kwargs)); the cells differ from each other and from the trainer's constructor defaults.
+    A cell's "trainer" entry is its EFFECTIVE hyperparameter set (defaults updated with the overridden keys): that is what
+    the model is instantiated with and what the oracle evaluates the documented rule with."""
+    cls = cls or rng.choice(TWO + KER + THREE)
+    defaults = gen_trainer(rng, cls)
+    B = rng.randint(1, 3)
+    T = rng.randint(1, 12)
+    ncell = rng.choice([2, 2, 3])
+    zero_k = cls in KER and rng.random() < 0.4
+    dflt_delayed = cls == "KernelSTDP" and rng.random() < 0.4
+    if zero_k:
+        defaults["zero_kernels"] = True
+    if dflt_delayed:
+        defaults["delayed"] = True
+    plain_last = ncell == 3 and not zero_k and not dflt_delayed and rng.random() < 0.5   # a cell without overrides
+    cells = []
+    for j in range(ncell):
+        dt = rng.choice(DTS)
+        want_delay = True if cls != "KernelSTDP" else rng.random() < 0.5
+        conn = gen_conn(rng, dt, want_delay, conv_ok=rng.random() < 0.5)
+        own = gen_trainer(rng, cls)
+        flip_signs(rng, own, defaults)
+        if cls in KER:
+            allk = ["post", "pre", "red"]
+        else:
+            allk = list(DED_KEYS)
+        if plain_last and j == ncell - 1:
+            keys = []
+        elif rng.random() < 0.6:
+            keys = list(allk)
+        else:
+            keys = [k for k in allk if rng.random() < 0.5] or [rng.choice(allk)]
+        eff = {k: v for k, v in defaults.items() if k not in ("zero_kernels", "delayed")}
+        for k in keys:
+            if k == "post":
+                eff["lr_post"], eff["tc_post"] = own["lr_post"], own["tc_post"]
+            elif k == "pre":
+                eff["lr_pre"], eff["tc_pre"] = own["lr_pre"], own["tc_pre"]
+            else:
+                eff[k] = own[k]
+        if cls in KER and (zero_k or rng.random() < 0.3):
+            keys = keys + ["kernels"]
+        if cls == "KernelSTDP" and (dflt_delayed or rng.random() < 0.3):
+            keys = keys + ["delayed"]
+        extra = {}
+        if rng.random() < 0.3:
+            extra["inplace"] = rng.random() < 0.5
+        if rng.random() < 0.3:
+            extra["interp_tolerance"] = rng.choice([0.0, 1e-6])
+        case = {"kind": "cell", "B": B, "conn": conn, "trainer": eff, "group": gid, "defaults": defaults,
+                "override_keys": keys, "override_extra": extra}
+        g = geometry(case)
+        case["steps"] = gen_steps(rng, case, g, T, persample)
+        if cells and cls in THREE:          # the reward signal is an argument of the one trainer call
+            for st, st0 in zip(case["steps"], cells[0]["steps"]):
+                st["signal"], st["scale"] = copy.deepcopy(st0["signal"]), st0["scale"]
+        cells.append(case)
+    return cells
 
 
 def gen_pair(rng):
@@ -512,9 +587,36 @@ def ensure_exec():
         F.make(["C18/DelayAdjExec.vo"], timeout=600)
 
 
+def group_of(cases, c):
+    """the replayable unit of a failing cell: the whole group when the cell shares its trainer object with others"""
+    if c.get("kind") == "cell" and c.get("group") is not None:
+        members = [x for x in cases if x.get("kind") == "cell" and x.get("group") == c["group"]]
+        return {"kind": "group", "defaults": c["defaults"], "cells": members}
+    return c
+
+
+def run_impl_grouped(cases):
+    """cells with the same "group" are run under ONE trainer object; results are scattered back into case order"""
+    payload, where, seen = [], [], {}
+    for c in cases:
+        gid = c.get("group") if c.get("kind") == "cell" else None
+        if gid is None:
+            where.append((len(payload), None))
+            payload.append(c)
+        else:
+            if gid not in seen:
+                seen[gid] = len(payload)
+                payload.append({"kind": "group", "defaults": c["defaults"], "cells": []})
+            k = seen[gid]
+            where.append((k, len(payload[k]["cells"])))
+            payload[k]["cells"].append(c)
+    res = F.run_impl(IMPL, {"cases": payload})
+    return [res[k] if j is None else res[k][j] for (k, j) in where]
+
+
 def evaluate(cases, pairs):
     ensure_exec()
-    impl = F.run_impl(IMPL, {"cases": cases})
+    impl = run_impl_grouped(cases)
     geos, obss, terms = [], [], []
     for c, ri in zip(cases, impl):
         if c["kind"] == "kernel":
@@ -548,15 +650,18 @@ def evaluate(cases, pairs):
             continue
         if o is None:
             bad = next(r for r in ri if "error" in r)
-            oracle_fail.append({"case": c, "detail": {"what": "implementation raised", "msg": bad.get("msg")},
+            oracle_fail.append({"case": group_of(cases, c), "detail": {"what": "implementation raised", "msg": bad.get("msg")},
                                 "signature": {"trainer": c["trainer"]["cls"], "what": "raised"}})
             continue
+        member = ({"cell_in_group": [x for x in cases if x.get("group") == c["group"] and x.get("kind") == "cell"].index(c)}
+                  if c.get("group") is not None else {})
         d = compare_cell(c, g, ri, tm)
         if d is not None:
-            mismatches.append({"case": c, "detail": d})
+            mismatches.append({"case": group_of(cases, c), "detail": dict(d, **member)})
         r = oracle_cell(c, g, o, ri)
         if r is not None:
-            oracle_fail.append({"case": c, "detail": r[0], "signature": r[1]})
+            sig = dict(r[1], overrides=bool(c.get("override_keys"))) if c.get("group") is not None else r[1]
+            oracle_fail.append({"case": group_of(cases, c), "detail": dict(r[0], **member), "signature": sig})
     for what, ia, ib in pairs:
         d = oracle_pair(what, impl[ia], impl[ib])
         if d is not None:
@@ -602,6 +707,8 @@ def strip(c):
     c = copy.deepcopy(c)
     if c.get("kind") == "pair":
         return {"kind": "pair", "what": c["what"], "a": strip(c["a"]), "b": strip(c["b"])}
+    if c.get("kind") == "group":
+        return {"kind": "group", "defaults": c["defaults"], "cells": [strip(x) for x in c["cells"]]}
     for st in c.get("steps", []):
         st.pop("delay_seen", None)
     return c
@@ -639,17 +746,27 @@ def run(ctx):
     rng = random.Random(ctx["seed"])
     quick = ctx["tier"] == "quick"
     STATS.clear()
-    n_cell, n_pair, n_ker = (170, 45, 40) if quick else (2500, 600, 300)
+    n_single, n_group, n_pair, n_ker = (45, 56, 40, 30) if quick else (800, 800, 600, 300)
     cases = []
     pairs = []
+    gid = 0
     for c in load_corpus():
         if c.get("kind") == "pair":
             pairs.append((c["what"], len(cases), len(cases) + 1))
             cases += [c["a"], c["b"]]
+        elif c.get("kind") == "group":
+            for x in c["cells"]:
+                x["group"], x["defaults"] = gid, c["defaults"]
+                cases.append(x)
+            gid += 1
         else:
             cases.append(c)
-    for _ in range(n_cell):
+    for _ in range(n_single):
         cases.append(gen_case(rng))
+    for k in range(n_group):
+        # every trainer class in turn, so that each of the seven is exercised with overrides in every run
+        cases += gen_group(rng, gid, (TWO + KER + THREE)[k % 7], persample=bool((k // 7) % 2))   # both signal forms in turn
+        gid += 1
     for _ in range(n_pair):
         what, a, b = gen_pair(rng)
         pairs.append((what, len(cases), len(cases) + 1))
@@ -689,13 +806,23 @@ def run(ctx):
                  "(LinearDense/Direct/Lateral, Conv2D with and without padding; batch 1-3; dt in {1, .5, .25, .1}) with a scripted "
                  "postsynaptic neuron, for the 7 trainers x all learning-rate sign modes (incl. 0) x sum/mean/amax reduction, "
                  "per-element delays on and off the time grid that change between steps (set directly or by connection.update()), "
-                 "scalar and per-sample reward signals; pairs of cells for the two agreement statements; the two half kernels on "
+                 "scalar and per-sample reward signals; most cells are run in groups of 2-3 under ONE trainer object and registered with "
+                 "register_cell keyword overrides (learning rates incl. sign changes, time constants, kernels and their kwargs, "
+                 "batch_reduction, delayed, inplace, interp_tolerance) that differ between the cells and from the trainer's "
+                 "constructor defaults, the oracle using each cell's effective hyperparameters; pairs of cells for the two agreement statements; the two half kernels on "
                  "boundary arguments; non-trivial = >=2 steps and >=2 non-zero parts"
                  + ("" if quick else "; plus every pre/post history of length <= 4 on a 1x1 cell for 4 trainers")),
         "trainer_distribution": dict(Counter(c["trainer"]["cls"] for c in cells)),
         "connection_distribution": dict(Counter(c["conn"]["cls"] for c in cells)),
         "reduction_distribution": dict(Counter(c["trainer"]["red"] for c in cells)),
         "pairs": dict(Counter(w for w, _, _ in pairs)),
+        "groups_one_trainer_several_cells": len({c["group"] for c in cells if c.get("group") is not None}),
+        "cells_registered_with_overrides": sum(1 for c in cells if c.get("override_keys")),
+        "override_key_distribution": dict(Counter(k for c in cells for k in c.get("override_keys", []))),
+        "overridden_cells_by_trainer": dict(Counter(c["trainer"]["cls"] for c in cells if c.get("override_keys"))),
+        "overridden_cells_lr_sign_differs_from_default": sum(
+            1 for c in cells if c.get("override_keys") and any(
+                (c["trainer"][k] >= 0) != (c["defaults"][k] >= 0) for k in c["trainer"] if k.startswith("lr_"))),
         "steps_with_a_silent_unit": silent_steps, "steps_all_units_spiked": active_steps,
         "observation_amax_pairs": amax_obs, "tdelta_statistics": dict(STATS),
         "samples": [strip(c) for c in cells[:2]],
@@ -709,6 +836,11 @@ def _fails(case):
     if case.get("kind") == "pair":
         cs = [copy.deepcopy(case["a"]), copy.deepcopy(case["b"])]
         _, _, mm, of = evaluate(cs, [(case["what"], 0, 1)])
+    elif case.get("kind") == "group":
+        cs = copy.deepcopy(case["cells"])
+        for x in cs:
+            x["group"], x["defaults"] = 0, case["defaults"]
+        _, _, mm, of = evaluate(cs, [])
     else:
         _, _, mm, of = evaluate([copy.deepcopy(case)], [])
     if of:
@@ -729,6 +861,9 @@ def minimise(case, rounds=6):
         if c2.get("kind") == "pair":
             c2["a"]["steps"] = c2["a"]["steps"][:k + 1]
             c2["b"]["steps"] = c2["b"]["steps"][:k + 1]
+        elif c2.get("kind") == "group":
+            for x in c2["cells"]:
+                x["steps"] = x["steps"][:k + 1]
         else:
             c2["steps"] = c2["steps"][:k + 1]
         d2 = _fails(c2)
